@@ -235,6 +235,8 @@ def simplify_math_iterators(source: str) -> str:
         if core.match_template(arg, ast.Call(func=ast.Name(id="range"))):
             if any((node is not arg for node in core.walk(arg, (ast.Attribute, ast.Call)))):
                 continue
+            if len(arg.args) == 3 and not core.match_template(arg.args[2], ast.Constant(value=1)):
+                continue  # There is no closed form for a range with a step here
             yield from closed_form(node, _sum_range(arg))
 
         elif core.match_template(arg, basic_collection_template):
